@@ -179,13 +179,16 @@ func vfGenSketchHash(t *rapid.T, mask uint64, used []uint64) uint64 {
 }
 
 func vfGenNumCounters(t *rapid.T) int64 {
-	switch rapid.IntRange(0, 5).Draw(t, "ncmode") {
-	case 0:
+	switch rapid.IntRange(0, 13).Draw(t, "ncmode") {
+	case 0, 1:
 		return int64(rapid.IntRange(2, 4096).Draw(t, "nc"))
-	case 1:
+	case 2, 3:
 		return int64(1) << rapid.UintRange(1, 12).Draw(t, "ncexp")
-	case 2:
+	case 4, 5:
 		return (int64(1) << rapid.UintRange(2, 12).Draw(t, "ncexp")) + int64(rapid.IntRange(-1, 1).Draw(t, "ncd"))
+	case 6:
+		// large tables (up to 1 Mi counters per row, 2 MiB per sketch), around the powers of two
+		return (int64(1) << rapid.UintRange(13, 20).Draw(t, "ncexpbig")) + int64(rapid.IntRange(-2, 3).Draw(t, "ncdbig"))
 	default:
 		return int64(rapid.IntRange(2, 40).Draw(t, "nc"))
 	}
@@ -538,7 +541,35 @@ func TestVf_C18_Enum(t *testing.T) {
 			ev.Case(true, vfHash("enum", b, half), "enum:byte-x-half")
 		}
 	}
-	ev.Sample(true, func() any { return "all 256 byte values x both halves: get, increment, reset, clear" })
+	// "sized to the next power of two": the rounding itself, for every exponent the int64 argument allows and the values
+	// around each power of two; the table itself up to 2^22 counters per row
+	for e := uint(1); e <= 62; e++ {
+		for d := int64(-3); d <= 3; d++ {
+			x := int64(1)<<e + d
+			if x < 1 || (e == 62 && d > 0) {
+				continue
+			}
+			p2 := int64(1)
+			for p2 < x {
+				p2 <<= 1
+			}
+			if got := next2Power(x); got != p2 {
+				t.Fatalf("%s", vfFail("C18", "enum", "C18/enum/next-power-of-two", map[string]any{"x": x}, "next2Power(%d)=%d, the next power of two is %d", x, got, p2))
+			}
+			if e <= 22 && x >= 2 {
+				sk := newCmSketch(x)
+				for i := range sk.rows {
+					if int64(len(sk.rows[i]))*2 != p2 || sk.mask != uint64(p2-1) {
+						t.Fatalf("%s", vfFail("C18", "enum", "C18/enum/table-size", map[string]any{"num_counters": x}, "NumCounters=%d: row %d holds %d counters, mask %#x; the next power of two is %d", x, i, len(sk.rows[i])*2, sk.mask, p2))
+					}
+				}
+			}
+			ev.Case(true, vfHash("enum-p2", x), "enum:next-power-of-two")
+		}
+	}
+	ev.Sample(true, func() any {
+		return "all 256 byte values x both halves: get, increment, reset, clear; next2Power(2^e+d) for e=1..62, d=-3..3; table size for e<=22"
+	})
 }
 
 func TestVfReplay_C18(t *testing.T) {
